@@ -17,6 +17,8 @@ type Task struct {
 	wake   chan struct{}
 	parked bool
 	done   bool
+	// Data is free for the harness (e.g. the operation the task is executing).
+	Data any
 	// Blocked is set by harness code to mark a task that is waiting for the SUT
 	// (not parked, not done) — used only for diagnostics.
 }
@@ -245,4 +247,24 @@ func (s *Sched) Passthrough() {
 		t.wake <- struct{}{}
 	}
 	synctest.Wait()
+}
+
+// Current returns the task of the calling goroutine (nil for the root or an unknown goroutine).
+func (s *Sched) Current() *Task {
+	gid := curGID()
+	s.mu.Lock()
+	defer s.mu.Unlock()
+	return s.byG[gid]
+}
+
+// AllDone reports whether every task started with Go has finished.
+func (s *Sched) AllDone(ts []*Task) bool {
+	s.mu.Lock()
+	defer s.mu.Unlock()
+	for _, t := range ts {
+		if !t.done {
+			return false
+		}
+	}
+	return true
 }
